@@ -28,6 +28,18 @@ checks = [
      "For each seeded scenario the complete decision tree of the transition's internal random draws is enumerated with exact probabilities through a scripted generator (no sampling inside a scenario), for every start state in a window of a real integrator orbit; the stationarity equation, row sums, reported step counts and acceptance statistics are checked. Scenarios (systems, integrators, step sizes, settings, energy offsets) are a seeded sample.",
      "Exactness is limited to tree depth <= 3 (4 thorough) and orbits in <= 3 dimensions; orbit states identified by nearest neighbour; scenarios whose trajectories hit integrator errors or fragile criterion margins are discarded and counted.",
      "scripted random generator with exhaustive draw-tree enumeration per seeded scenario; conservation (stationarity) oracle", "E1 drawtree", "DESIGN.md section 4.1, 5 C01"),
+ chk("C02", "exploration",
+     "Every integrator step issued by real transitions along seeded chains (step sizes pushed beyond stability, randomised solver budgets and tolerances, deterministic NaN/inf regions) is monitored: the input state is byte-identical afterwards, a returned state reverses to its input within tolerance (scaled by the measured local expansion when rounding is amplified), and fault-free steps raise nothing but IntegratorError; plus direct n-step/flip/n-step lattice histories. The 'fails loudly' half is decided by fault injection, the 'for all states' half is sampled.",
+     "Tolerances calibrated on the pinned tree; steps outside floating-point range (>1e8 or non-finite) are not judged; a reverse step that itself raises IntegratorError is inconclusive.",
+     "fault-injected simulation with run-time reversal invariant at the integrator seam", "E3 faultsim", "DESIGN.md section 5 C02"),
+ chk("C04", "exploration",
+     "Constrained chains under solver-budget, tolerance and model-function faults: constraint and cotangent residuals are re-evaluated from scratch after every successful step and momentum draw; every projection-solver return is checked for residual < tolerance and Lagrange-multiplier form, every solver failure for being a ConvergenceError.",
+     "Residual limits calibrated on the pinned tree; input space sampled along chains; oracle evaluations on fresh states with the injector paused.",
+     "fault-injected simulation with run-time manifold invariants at integrator and solver seams", "E3 faultsim", "DESIGN.md section 5 C04"),
+ chk("C12", "fault_enumeration",
+     "For each seeded scenario a pilot run catalogues every model-function call inside transitions; one faulted chain is run for every (call index, applicable fault kind) up to a per-scenario budget, plus forced non-convergence of individual solves, multi-fault sequences and deterministic bad regions. Each transition from the first fault on must return a finite unchanged-or-candidate state with flags matching the errors actually raised; solvers must not return unconverged or leak foreign exceptions; healthy scenarios must make progress once faults stop.",
+     "Exceptions are injected only while a solver is on the stack; liveness is asserted only for scenarios whose fault-free chain is flag-free; three classes of escapes from matrix constructors outside solver loops are listed as known findings (KNOWN_FINDINGS.txt).",
+     "fault enumeration over call indices under deterministic simulation; containment oracle per transition", "E3 faultsim", "DESIGN.md section 5 C12"),
  chk("C13", "exploration",
      "Seeded search over sampler configurations and simulated process schedules; every returned row, statistic and final state is compared bitwise with a ground-truth log written at the moment each transition returns; storage variants and the durable disk image are compared too. Sampling of a large configuration x schedule space, not a proof.",
      "Trusted: the recording proxies and the scheduler (self-tested for determinism); workers are threads isolated by pickling; durable image = content at last flush.",
